@@ -29,7 +29,8 @@ P = {
             "Request: Authorization absent / other scheme (incl. lower-case, no space) / Basic {bad base64, 1 or 3 parts, right or wrong "
             "pair} / Bearer token / 'Bearer' + blanks / two field lines in both orders; X-Token header; token in query (incl. blank) / body "
             "(form, JSON, one-element array, twice, number); session cookie / header; tokens = not-a-JWS variants, JWS with array payload, "
-            "unknown key, bad signature (4 ways), failed issuer/time assertion, wrong audience/scope, no subject, valid - crossed with the "
+            "unknown key, bad signature (4 ways), every claim assertion failing by a wrong / absent / empty / ill-typed value (iss, exp, nbf, "
+            "iat, aud, scope|scp, sub), optional claims absent, no subject, valid - crossed with the same variety of "
             "introspection answer; a later request repeats the previous one (tokens, sessions) with the switchable endpoints in another "
             "state, or is fresh. Entry: compositeSubjectCreator.Execute directly | complete decision service | complete Envoy ext_authz "
             "service (real rule executor, ruleImpl.Execute, header finalizer forwarding Subject.ID). Observation per request: per consulted "
